@@ -196,13 +196,19 @@ CLAIMED = {
                 "slot torn at any byte between two headers of the same file is a well-formed header declaring at least the older "
                 "length), C11_committed_states + C11_committed_readable (the last clause: after a finalize completed with shapes ss0, "
                 "on EVERY later crash state - any byte cut of any later write or finalize - a reader without index opens the file "
-                "and yields at least ss0, still a prefix of the shapes written). Tie: the real "
+                "and yields at least ss0, still a prefix of the shapes written). Readers WITH the index: C11_read_index_truncated (any "
+                "index whose entries address records of a file, any truncation of the file: every entry is answered with its "
+                "record if wholly retained, else UnexpectedEof), C11_index_from_crash_state (any 100 bytes + any byte-prefix of the "
+                "true entries: the index read fails or returns a prefix of the true entries), C11_crash_states_shx (writer side "
+                "for the .shx), C11_crash_prefix_index (their composition over independent cuts of both operation sequences: "
+                "the reader fails to open or yields a prefix of the written shapes followed by UnexpectedEof errors only). "
+                "Tie: the real "
                 "traces equal the model's; the real reader is run on EVERY operation-prefix pair sampled across both "
                 "destinations and on byte cuts, with and without index, and compared with the model; oracle incl. 'everything "
                 "before a completed finalize stays readable'.",
         "note": COMMON_NOTE + "The crash model is the property's own (prefix of issued operations per destination); OS write-back "
-                "reordering is outside it. PARTIAL: the with-index route is decided by the correspondence + oracle over all cuts of "
-                "bounded workloads; theorems cover the reader without index (prefix clause and committed-stays-readable clause).",
+                "reordering is outside it. The committed-stays-readable clause is proved for the reader without index (the "
+                "property says 'readable from it', the .shp); with the index it is checked by the oracle over all cuts.",
         "technique": "Coq proof (invariant over byte-exploded operation traces of the writer; reader theorem for arbitrary "
                      "headers over record-stream prefixes; composition) + exhaustive cut enumeration through the real reader",
         "design_ref": "DESIGN.md section 7 (C11)",
